@@ -1,5 +1,5 @@
 """Correspondence for the source-to-Lean translator (gen/py2lean.py) and its run-time library (lean/Asn1/PyLite.lean):
-the *translation* of a function (driver ops KTAG, KLEN, KTOBYTES, KOIDENC, KOIDDEC, KTIME, KREAL, KREALDEC, KDECLEN, KDECTAG, KOCTCHUNK, KCRANGE, KCSIZE, KCSINGLE, KCALPHA, KCERBOOL, KWRAP, KINTDEC; PYFROMBYTES) and the function itself in /repo are
+the *translation* of a function (driver ops KTAG, KLEN, KTOBYTES, KOIDENC, KOIDDEC, KTIME, KREAL, KREALDEC, KDECLEN, KDECTAG, KOCTCHUNK, KSETOF, KCRANGE, KCSIZE, KCSINGLE, KCALPHA, KCERBOOL, KWRAP, KINTDEC; PYFROMBYTES) and the function itself in /repo are
 run on the same arguments; the Python builtins PyLite transcribes (PYOP) are compared with CPython.
 
 A disagreement means the translator or PyLite misrepresents the code (machinery fault to repair) - it is reported as a
@@ -47,7 +47,7 @@ def _py(f, *a, **kw):
     return ('ok', r)
 
 
-def check(rep, drv, seed, n=400, which=('encodeTag', 'encodeLength', 'toBytes', 'oidEncode', 'oidDecode', 'timeCanon', 'realBin', 'realDec', 'decodeLength', 'cerBool', 'wrapTags', 'intDecode', 'decodeTag', 'octetChunks', 'constraintLeaves')):
+def check(rep, drv, seed, n=400, which=('encodeTag', 'encodeLength', 'toBytes', 'oidEncode', 'oidDecode', 'timeCanon', 'realBin', 'realDec', 'decodeLength', 'cerBool', 'wrapTags', 'intDecode', 'decodeTag', 'octetChunks', 'constraintLeaves', 'setOfSort')):
     """returns number of cases compared"""
     from pyasn1.codec.ber import encoder as benc, decoder as bdec
     from pyasn1.compat import integer
@@ -456,6 +456,40 @@ def check(rep, drv, seed, n=400, which=('encodeTag', 'encodeLength', 'toBytes', 
                 except TypeError:
                     impl = ('err', 'TypeError')
                 cmp_(which_ + 'Test', 'KCSET %s %s' % (which_, ' '.join(map(str, outcomes))), impl)
+    if 'setOfSort' in which:
+        from pyasn1.codec.cer import encoder as cenc_
+
+        class StubSetOf(cenc_.SetOfEncoder):
+            chunks = None
+
+            def _encodeComponents(self, value, asn1Spec, encodeFun, **options):
+                return list(self.chunks)
+        stub = StubSetOf()
+        for i in range(n):
+            k = rng.choice([0, 1, 2, 2, 3, 3, 4, 5, 8])
+            pool_ = [bytes(rng.choice([0, 0, 1, 2, 0x7f, 0x80, 0xff]) for _ in range(rng.choice([0, 1, 2, 3, 3, 4]))) for _ in range(4)]
+            chunks = []
+            for _ in range(k):
+                c = rng.choice(pool_)
+                r_ = rng.random()
+                if r_ < 0.3:
+                    c = c + bytes(rng.choice([0, 0, 0, 1]) for _ in range(rng.randrange(0, 3)))     # equal up to trailing zeros: ties of the padded keys
+                elif r_ < 0.4:
+                    c = bytes(rng.randrange(256) for _ in range(rng.randrange(0, 6)))
+                chunks.append(c)
+            stub.chunks = chunks
+
+            def real():
+                r = stub.encodeValue(None, None, None)
+                return list(r[0]) + [int(r[1]), int(r[2])]
+            impl = _py(real)
+            line = 'KSETOF %d %s %s' % (len(chunks), ' '.join(str(len(c)) for c in chunks), ' '.join(str(b) for c in chunks for b in c))
+            nonlocal_done[0] += 1
+            rep.corr_checked += 1
+            ans = drv.ask(line).replace('true', '1').replace('false', '0').replace('|', '')
+            got = _ints(ans)
+            if got != impl:
+                rep.disagree('KERNEL:setOfSort', line[:300], ans[:300], repr(impl)[:300])
     if 'cerBool' in which:
         import io as _io2
         from pyasn1.codec.cer import decoder as cdec_
